@@ -54,7 +54,7 @@ def gen_perms(rng, tier, seed):
         db['services'].append({'uuid': '%04X' % (0xF300 + si), 'primary': True, 'includes': [], 'chars': chars})
     phases = ['plain']
     for _ in range(rng.choice([1, 2, 2, 3])):
-        phases.append(rng.choice(['jw', 'passkey', 'reconnect']))
+        phases.append(rng.choice(['jw', 'passkey', 'reconnect', 'enc_paused']))
     return {'db': db, 'phases': phases, 'eatt': rng.random() < 0.3, 'profile': rng.choice(PROFILE_NAMES), 'order': rng.randrange(1 << 30),
             'mtu': rng.choice([23, 23, 64, 200]), '_lists': ['phases']}
 
@@ -245,6 +245,9 @@ def run_perms(case):
                 sim.loop.advance(0.1)
                 connect()
 
+            if ph in ('jw', 'passkey') and link == 'enc-paused':
+                reconnect()
+                link = 'plain'
             if ph == 'jw':
                 if link != 'plain':
                     continue  # each connection is paired at most once here (re-pairing an encrypted link is C13's business)
@@ -257,6 +260,20 @@ def run_perms(case):
                     reconnect()
                 pair('passkey')
                 link = 'authenticated'
+            elif ph == 'enc_paused':
+                # the server's controller reports that encryption is off again (encryption pause / key refresh in progress):
+                # the pairing outcome is remembered, the link is not encrypted
+                if link not in ('encrypted', 'authenticated'):
+                    continue
+                from bumble import hci
+                c0, c1 = state['conn']
+                world[1].c2h.inject(bytes(hci.HCI_Encryption_Change_Event(status=0, connection_handle=c1.handle, encryption_enabled=0)))
+                sim.loop.settle(vt_budget=1.0)
+                if c1.encryption:
+                    raise HarnessError('encryption still reported on')
+                state['enc'] = False
+                state['authn'] = bool(c1.authenticated)
+                link = 'enc-paused'
             elif ph == 'reconnect':
                 reconnect()
                 link = 'plain'
